@@ -165,6 +165,11 @@ def run(ctx):
                         own = [N(f) for f in somes[0].own]
                         st_key = SEC + "::<'_>::section_type"
                         for f in own:
+                            # derived PartialEq on the fieldless ElfSectionType, spliced in: discriminant(section_type(&section)) != discriminant(Unused)
+                            if f[0] == "cmp" and f[1] == "Ne":
+                                for (p_, q_) in ((f[2], f[3]), (f[3], f[2])):
+                                    if p_ == ("discr", ("call", st_key, (("ref", pl),))) and q_[0] == "discr" and q_[1][0] == "cs" and q_[1][2] == "Unused":
+                                        skip_ok = True
                             x = f
                             if x[0] == "istrue" and x[1][0] == "call" and "PartialEq>::ne" in str(x[1][1]):
                                 a0, a1 = x[1][2]
